@@ -253,6 +253,93 @@ class G:
                 cur |= 1 << d[6]
         return [d for d in self.defs.get(local, ()) if (cur >> d[6]) & 1]
 
+    # ------------------------------------------------------------ maybe-initialised locals
+    def _ops_of_rv(self, rv):
+        k = rv["k"]
+        if k in ("use", "cast", "repeat"):
+            return [rv["op"]]
+        if k == "binop":
+            return [rv["a"], rv["b"]]
+        if k == "unop":
+            return [rv["a"]]
+        if k == "agg":
+            return rv["ops"]
+        return []
+
+    def _compute_init(self):
+        """forward may-analysis: bit l set = local l may hold an initialised value"""
+        n = self.n
+        nl = len(self.b.locals)
+        IN = [0] * n
+        OUT = [0] * n
+        entry = 0
+        for l in range(1, self.b.arg_count + 1):
+            entry |= 1 << l
+
+        def transfer(i, cur, upto=None):
+            blk = self.b.blocks[i]
+            stmts = blk["stmts"]
+            for j, s in enumerate(stmts):
+                if upto is not None and j >= upto:
+                    return cur
+                if s["k"] == "assign":
+                    for o in self._ops_of_rv(s["rv"]):
+                        pl = o.get("move")
+                        if pl is not None and not pl["p"]:
+                            cur &= ~(1 << pl["l"])
+                    if not s["lhs"]["p"]:
+                        cur |= 1 << s["lhs"]["l"]
+                elif s["k"] == "dead":
+                    cur &= ~(1 << s["l"])
+            if upto is not None and upto <= len(stmts):
+                return cur
+            t = blk["term"]
+            k = t["k"]
+            if k == "call":
+                for o in t["args"]:
+                    pl = o.get("move")
+                    if pl is not None and not pl["p"]:
+                        cur &= ~(1 << pl["l"])
+                if not t["dest"]["p"]:
+                    cur |= 1 << t["dest"]["l"]
+            elif k == "drop":
+                if not t["place"]["p"]:
+                    cur &= ~(1 << t["place"]["l"])
+            elif k == "yield":
+                pl = t["value"].get("move")
+                if pl is not None and not pl["p"]:
+                    cur &= ~(1 << pl["l"])
+                if not t["resume_arg"]["p"]:
+                    cur |= 1 << t["resume_arg"]["l"]
+            return cur
+
+        self._init_transfer = transfer
+        IN[0] = entry
+        work = deque(range(n))
+        inw = [True] * n
+        while work:
+            i = work.popleft()
+            inw[i] = False
+            inn = entry if i == 0 else 0
+            for (p, _k, _l) in self.pred[i]:
+                inn |= OUT[p]
+            IN[i] = inn
+            out = transfer(i, inn)
+            if out != OUT[i]:
+                OUT[i] = out
+                for (t, _k, _l) in self.succ[i]:
+                    if t >= 0 and not inw[t]:
+                        inw[t] = True
+                        work.append(t)
+        self._init = IN
+
+    def maybe_init(self, local, bb):
+        """may `local` be initialised just before the terminator of bb?"""
+        if getattr(self, "_init", None) is None:
+            self._compute_init()
+        cur = self._init_transfer(bb, self._init[bb], upto=len(self.stmts(bb)))
+        return bool((cur >> local) & 1)
+
     # ------------------------------------------------------------ dominators (all edges)
     def dominators(self):
         if self._dom is not None:
@@ -724,10 +811,8 @@ class Tracer:
                 # enum-variant aggregates of a single active field / normal positional
                 if fi < len(ops):
                     return self.operand(b, ops[fi], (node[3], node[4]), depth + 1)
-                return ("field", node, e.get("n", fi))
-            if node[0] == "cast" and node[1].startswith("PointerCoercion"):
-                pass
-            return ("field", node, e.get("n", e["f"]))
+                return ("field", node, e.get("n", fi), e.get("adt"))
+            return ("field", node, e.get("n", e["f"]), e.get("adt"))
         if isinstance(e, dict) and "downcast" in e:
             if node[0] == "agg":
                 return node
@@ -790,18 +875,57 @@ class Tracer:
                 return ("cast", nd[1], rec(nd[2], fuel))
             if nd[0] in ("field", "downcast", "proj"):
                 inner = rec(nd[1], fuel)
-                if nd[0] == "field" and inner[0] == "agg":
-                    # re-project into the aggregate
-                    return rec(self.project1(inner, {"f": nd[2]} if isinstance(nd[2], int) else {"f": -1, "n": nd[2]}), fuel - 1) if isinstance(nd[2], int) else (nd[0], inner, nd[2])
-                if nd[0] == "deref" and inner[0] == "ref":
-                    return inner[1]
-                return (nd[0], inner, nd[2])
+                return (nd[0], inner) + tuple(nd[2:])
             if nd[0] == "binop":
                 return ("binop", nd[1], rec(nd[2], fuel), rec(nd[3], fuel))
             if nd[0] == "unop":
                 return ("unop", nd[1], rec(nd[2], fuel))
             return nd
         return rec(node, limit)
+
+    # ---- expression DAG
+    def children(self, node):
+        k = node[0]
+        if k == "phi":
+            return list(node[1])
+        if k in ("ref", "deref", "discr"):
+            return [node[1]]
+        if k == "cast":
+            return [node[2]]
+        if k in ("field", "downcast", "proj"):
+            return [node[1]]
+        if k == "binop":
+            return [node[2], node[3]]
+        if k == "unop":
+            return [node[2]]
+        if k == "call":
+            c = self.call_of(node)
+            return [self.operand(c.g.b, a, c.loc) for a in c.args]
+        if k == "agg":
+            b, rv = self.agg_of(node)
+            return [self.operand(b, o, (node[3], node[4])) for o in rv["ops"]]
+        return []
+
+    def walk(self, node, limit=400, upvars=True, through_calls=True):
+        """all nodes of the expression DAG under `node` (calls expand into their arguments)"""
+        seen = []
+        seenset = set()
+        st = [node]
+        while st and len(seen) < limit:
+            x = st.pop()
+            if x in seenset:
+                continue
+            seenset.add(x)
+            seen.append(x)
+            if x[0] == "upvar" and upvars:
+                r = self.resolve_upvar(x)
+                if r is not x:
+                    st.append(r)
+                continue
+            if x[0] == "call" and not through_calls:
+                continue
+            st.extend(self.children(x))
+        return seen
 
     # ---- helpers on nodes
     def call_of(self, node):
